@@ -106,7 +106,16 @@ theorem packLifeStep_inv (info : CompId → CompInfo) (t : Nat) (F : SlotState) 
       simp only
       split
       · split
-        · exact h
+        · rename_i hfc hnc
+          -- the closure brings `c` back: the set becomes the closure of the rest, which contains the old one
+          have hcn : c ∈ closedMask acc.w.deps (Mask.erase acc.p.final c) := by simpa using hnc
+          have hsup : ∀ x, x ∈ acc.p.final → x ∈ closedMask acc.w.deps (Mask.erase acc.p.final c) := by
+            intro x hx
+            by_cases hxc : x = c
+            · rw [hxc]; exact hcn
+            · exact mem_closedMask_of_mem _ _ _ ((mem_erase _ _ _).mpr ⟨hx, hxc⟩)
+          exact ⟨h.masks, h.ok, fun _ => hal, maskOk_closedMask _ (maskOk_erase h.fin c), h.keys, h.nodup,
+            fun x hx => hsup x (h.sub x hx), h.repl, fun x hi hx => h.gone x hi (fun hxf => hx (hsup x hxf)), h.temps⟩
         · rename_i hfc hnc
           refine ⟨h.masks, h.ok, fun _ => hal, maskOk_closedMask _ (maskOk_erase h.fin c), ?_, ?_, ?_, ?_, ?_, ?_⟩
           · simp only [map_fst_filter_ne, h.keys]
